@@ -8,6 +8,7 @@ use crate::parser::ast::{
     BinaryOperatorKind, BinaryOperatorSymbol, Expression, Expression_, ToplevelItem,
 };
 use crate::parser::diagnostics::ErrorMessage;
+use crate::parser::position::Position;
 use crate::parser::visitor::Visitor;
 use crate::{msgcode, msgtext};
 
@@ -38,17 +39,17 @@ fn is_pure_(expr: &Expression_) -> bool {
 /// An operand in a boolean chain, paired with the offset at which a
 /// deletion should start if this operand turns out to be a duplicate.
 ///
-/// `delete_from` is the end offset of the operand's left sibling at the
-/// binary operator node, so deleting from there to the end of the
+/// `delete_from` is the position of the operand's left sibling at the
+/// binary operator node, so deleting from its end to the end of the
 /// operand removes ` <op> operand` without crossing a parenthesis
 /// boundary. It is `None` for the leftmost operand, which has no left
 /// sibling.
 struct Operand<'a> {
     expr: &'a Expression,
-    delete_from: Option<usize>,
-    /// The end offset of the operand, including any parentheses
-    /// wrapped around just this operand.
-    delete_to: usize,
+    delete_from: Option<&'a Position>,
+    /// The deletion stops at the end of this position: the operand,
+    /// including any parentheses wrapped around just this operand.
+    delete_to: &'a Position,
 }
 
 /// Collect operands from a boolean chain, returning them as references
@@ -62,8 +63,8 @@ fn collect_operands<'a>(expr: &'a Expression, op_sym: &BinaryOperatorSymbol) -> 
 fn collect_operands_<'a>(
     expr: &'a Expression,
     op_sym: &BinaryOperatorSymbol,
-    delete_from: Option<usize>,
-    paren_end: Option<usize>,
+    delete_from: Option<&'a Position>,
+    paren_end: Option<&'a Position>,
     result: &mut Vec<Operand<'a>>,
 ) {
     match &expr.expr_ {
@@ -72,17 +73,17 @@ fn collect_operands_<'a>(
             // The right operand's left sibling is the whole left
             // subtree, so deletions start at its end (after any closing
             // parenthesis), not at the previous flattened operand.
-            collect_operands_(rhs, op_sym, Some(lhs.position.end_offset), None, result);
+            collect_operands_(rhs, op_sym, Some(&lhs.position), None, result);
         }
         Expression_::Parentheses(paren) => {
-            let paren_end = paren_end.unwrap_or(expr.position.end_offset);
+            let paren_end = paren_end.unwrap_or(&expr.position);
             collect_operands_(&paren.expr, op_sym, delete_from, Some(paren_end), result);
         }
         _ => {
             result.push(Operand {
                 expr,
                 delete_from,
-                delete_to: paren_end.unwrap_or(expr.position.end_offset),
+                delete_to: paren_end.unwrap_or(&expr.position),
             });
         }
     }
@@ -118,9 +119,15 @@ impl Visitor for RepeatedBoolVisitor {
                             // deleting from the end of the operand's left
                             // sibling to the end of this operand.
                             let fixes = if let Some(delete_from) = operand.delete_from {
+                                // Keep the line numbers and columns
+                                // in step with the offsets.
                                 let mut fix_pos = expr.position.clone();
-                                fix_pos.start_offset = delete_from;
-                                fix_pos.end_offset = operand.delete_to;
+                                fix_pos.start_offset = delete_from.end_offset;
+                                fix_pos.line_number = delete_from.end_line_number;
+                                fix_pos.column = delete_from.end_column;
+                                fix_pos.end_offset = operand.delete_to.end_offset;
+                                fix_pos.end_line_number = operand.delete_to.end_line_number;
+                                fix_pos.end_column = operand.delete_to.end_column;
                                 vec![Autofix {
                                     description: "Remove this duplicate".to_owned(),
                                     position: fix_pos,
